@@ -74,13 +74,13 @@ open Map
 
 theorem updThr_ok {x x1 : Ctx} {provs : List Addr} {thr : Nat} {cap : Option Nat} {timeout : Int} {freq : Nat} {total : Int}
     (h : updThr x provs thr cap timeout freq total = .ok x1) :
-    sameCore x1 x ∧ x1.timeout = x.timeout ∧ x1.freq = x.freq ∧ x1.rep = x.rep ∧ x1.state = x.state := by
+    sameCore x1 x ∧ x1.timeout = x.timeout ∧ x1.freq = x.freq ∧ x1.rep = x.rep ∧ x1.state = x.state ∧ x1.super = x.super := by
   unfold updThr at h
   dsimp only at h
   repeat' (split at h)
   all_goals first
     | (simp at h; done)
-    | (injection h with h; subst h; exact ⟨⟨rfl, rfl, rfl, rfl, rfl, rfl⟩, rfl, rfl, rfl, rfl⟩)
+    | (injection h with h; subst h; exact ⟨⟨rfl, rfl, rfl, rfl, rfl, rfl⟩, rfl, rfl, rfl, rfl, rfl⟩)
 
 theorem updateK_invX (s : State) (c : CtxId) (cons : Addr) (provs : List Addr) (thr : Nat) (cap : Option Nat)
     (timeout : Int) (freq : Nat) (total : Int) (h : InvX s) :
@@ -100,7 +100,7 @@ theorem updateK_invX (s : State) (c : CtxId) (cons : Addr) (provs : List Addr) (
       split; · exact h
       split; · exact h
       rename_i hstate _ hfreq _
-      obtain ⟨⟨c1, c2, c3, c4, c5, c6⟩, ht, hf, hr, hst⟩ := updThr_ok hu
+      obtain ⟨⟨c1, c2, c3, c4, c5, c6⟩, ht, hf, hr, hst, _⟩ := updThr_ok hu
       have hwf := h.ctxWF c x hx
       refine XInv.setCtx h hx ⟨c1, c2, c3, c4, c5, c6⟩ ?_ ?_
       · -- well-formedness of the updated context
